@@ -128,7 +128,18 @@ def install(ex, env):
     def is_finished(ctx, p):
         return z3.Bool('previous_search_finished')
     ex.model(r'^std::thread::JoinHandle::<.*>::is_finished$', is_finished)
-    ex.model(r'^std::sync::atomic::Atomic::<bool>::store$', lambda ctx, p, v, o: UNIT)
+    def atomic_store(ctx, p, v, o):
+        env.events.append(('flag_store', ctx.st.guard, v))
+        return UNIT
+    ex.model(r'^std::sync::atomic::Atomic::<bool>::store$', atomic_store)
+
+    def join(ctx, h):
+        # JoinHandle::join blocks until the search thread ends; a search that was not told to stop may never end
+        # (go infinite / no limits): the event is judged by the check
+        told = b_or(*[b_and(e[1], b_not(e[2]) if not isinstance(e[2], bool) else (not e[2])) for e in env.events if e[0] == 'flag_store'])
+        env.events.append(('join', ctx.st.guard, told))
+        return ok(UNIT)
+    ex.model(r'^std::thread::JoinHandle::<.*>::join$', join)
     ex.model(r'^<std::sync::Arc<.*> as std::ops::Deref>::deref$', lambda ctx, p: p)
 
     def vec_string_next(ctx, p):
@@ -161,21 +172,33 @@ def run_iteration(run, tokens, eof, search_state='none'):
 def check_loop(run, eof_hangs, known):
     from .c15 import concretise, classify_site
     from mirsym import native, solve
-    # ---- end of input
-    ex, env, r, up = run_iteration(run, [], True)
-    it = [e for e in env.events if e[0] == 'iterated']
-    g = b_or(*[e[1] for e in it]) if it else False
-    q = run.decide('loop/eof-terminates', [g], kind='smt', note='at end of input the command loop must not start another iteration')
-    if q.verdict == 'sat':
-        if eof_hangs(run):
-            if 'S4' in known:
-                run.known_finding('S4 the command loop spins forever when standard input is closed (read_line returns 0 bytes, loop continues)')
+    # ---- end of input (from a state without and with a search in flight)
+    for ss in ('none', 'running'):
+        ex, env, r, up = run_iteration(run, [], True, ss)
+        it = [e for e in env.events if e[0] == 'iterated']
+        g = b_or(*[e[1] for e in it]) if it else False
+        q = run.decide('loop/eof-terminates/%s' % ss, [g], kind='smt', note='at end of input the command loop must not start another iteration')
+        if q.verdict == 'sat':
+            if eof_hangs(run):
+                if 'S4' in known:
+                    run.known_finding('S4 the command loop spins forever when standard input is closed (read_line returns 0 bytes, loop continues)')
+                else:
+                    run.violation('with standard input closed the engine does not terminate (busy loop printing parse errors)', {'cmd': 'eof'})
             else:
-                run.violation('with standard input closed the engine does not terminate (busy loop printing parse errors)', {'cmd': 'eof'})
-        else:
-            run.inconclusive.append('EOF hang model does not reproduce on the real binary')
-    for ob, qq in run.check_obligations(ex, 'loop/eof', pre=[]):
-        run.inconclusive.append('panic obligation at EOF: %s' % ob)
+                run.inconclusive.append('EOF hang model does not reproduce on the real binary')
+        # waiting for the search thread without having told it to stop: the main thread is wedged for as long as the search runs
+        waits = [e for e in env.events if e[0] == 'join']
+        gw = b_or(*[b_and(e[1], b_not(e[2])) for e in waits]) if waits else False
+        q = run.decide('loop/eof-does-not-wait-for-an-unstopped-search/%s' % ss, ex.pre + [zb(gw)], kind='smt',
+                       note='at end of input the loop does not block on a search that was not told to stop')
+        if q.verdict == 'sat':
+            if eof_hangs(run, ['position startpos', 'go infinite']):
+                run.violation('with a search in flight (`go infinite`) and standard input closed the engine does not terminate: the command loop '
+                              'waits for the search thread without stopping it', {'cmd': 'eof', 'lines': ['position startpos', 'go infinite']})
+            else:
+                run.inconclusive.append('EOF-join hang model does not reproduce on the real binary')
+        for ob, qq in run.check_obligations(ex, 'loop/eof/%s' % ss, pre=[]):
+            run.inconclusive.append('panic obligation at EOF: %s' % ob)
     # ---- one line of n tokens
     N = 9 if run.tier == 'quick' else 12
     for ss in ('none', 'running'):
